@@ -86,6 +86,13 @@ def body(ctx, case):
              classes=[case["prop"], case["kind"], "m1" if case["m"] == 1.0 else "m_ne_1", "z_neg" if case["z"] < 0 else "z_pos",
                       "np_scalars" if case["np_scalars"] else "py_scalars"])
     u0 = u.copy()
+    # history first: calls whose scalar arguments differ from the case's by a few parts in 1e4 (same field, same grid);
+    # everything asserted below is asserted on a call that FOLLOWS them, so nothing may be inherited from them
+    for fld, fac in (("wvl", 1 + 3e-4), ("z", 1 - 2e-4), ("d1", 1 + 1e-4)):
+        if isinstance(case[fld], int):
+            continue
+        with np.errstate(all="ignore"):
+            run_prop(dict(case, **{fld: case[fld] * fac}), u)
     with np.errstate(all="ignore"):
         out, dout = run_prop(case, u)
     ctx.equal(u, u0, "%s modified its input field" % case["prop"])
